@@ -47,8 +47,8 @@ static int replay(const std::string& path, const std::string& tracefile)
 	Trace T(tracefile);
 	Fail F;
 	long n = 0, drift = 0;
-	json drifts = json::array(), wdrifts = json::array();
-	long wdrift = 0;
+	json drifts = json::array(), wdrifts = json::array(), tdrifts = json::array();
+	long wdrift = 0, tdrift = 0;
 	for(auto& c : cases)
 	{
 		std::string k = c["k"];
@@ -131,6 +131,28 @@ static int replay(const std::string& path, const std::string& tracefile)
 					F.add("Transpose_Lists(involution)", c);
 			}
 		}
+		else if(k == "Time")
+		{	// beyond the properties: Time_Display against spec/TimeDisplay.tla (a disagreement is a note, not a verdict)
+			static const char* U[7] = {"y", "w", "d", "h", "m", "s", "ms"};
+			int i0 = c["i"].get<int>() - 1;
+			std::string exp = "[";
+			for(int q = 0; q < 3; q++)
+			{
+				std::string d = std::to_string(c["f"][q].get<long>());
+				while(d.size() < (size_t)(i0 + q == 6 ? 3 : 2))
+					d = "0" + d;
+				exp += d + U[i0 + q] + (q < 2 ? ":" : "]");
+			}
+			double secs = (double)c["S"].get<long>() + c["M"].get<int>() / 1000.0;
+			intent("Time_Display " + std::to_string(secs));
+			std::string got = Time_Display(secs);
+			if(got != exp)
+			{
+				tdrift++;
+				if(tdrifts.size() < 6)
+					tdrifts.push_back({{"seconds", secs}, {"got", got}, {"model", exp}});
+			}
+		}
 		else if(k == "Stats")
 		{
 			std::vector<double> d = dvec(c["data"]);
@@ -182,7 +204,7 @@ static int replay(const std::string& path, const std::string& tracefile)
 		}
 	}
 	finished();
-	json out = {{"cases", n}, {"sfail", F.n}, {"fails", F.list}, {"drift", drift}, {"drifts", drifts}, {"wdrift", wdrift}, {"wdrifts", wdrifts}};
+	json out = {{"cases", n}, {"sfail", F.n}, {"fails", F.list}, {"drift", drift}, {"drifts", drifts}, {"wdrift", wdrift}, {"wdrifts", wdrifts}, {"tdrift", tdrift}, {"tdrifts", tdrifts}};
 	std::cout << out.dump() << std::endl;
 	return 0;
 }
